@@ -110,7 +110,14 @@ func (r NPRule) String() string {
 	for _, q := range r.Ports {
 		qs = append(qs, q.String())
 	}
-	return "[peers: " + strings.Join(ps, " | ") + "; ports: " + strings.Join(qs, ", ") + "]"
+	extra := ""
+	if len(r.Peers) == 0 && r.PeersEmptyList {
+		extra += " peers:[]"
+	}
+	if len(r.Ports) == 0 && r.PortsEmptyList {
+		extra += " ports:[]"
+	}
+	return "[peers: " + strings.Join(ps, " | ") + "; ports: " + strings.Join(qs, ", ") + extra + "]"
 }
 
 func (np *NP) String() string {
@@ -120,6 +127,15 @@ func (np *NP) String() string {
 	}
 	for _, r := range np.Egress {
 		s += " egress" + r.String()
+	}
+	if len(np.Ingress) == 0 && np.IngressEmptyList {
+		s += " ingress:[]"
+	}
+	if len(np.Egress) == 0 && np.EgressEmptyList {
+		s += " egress:[]"
+	}
+	if np.UID != "" {
+		s += " uid=" + np.UID
 	}
 	return s
 }
